@@ -362,7 +362,8 @@ def run_case(case, R):
             compare_spellings(R, "operator/", f"({la})", outcome(lambda: a_ / b_), outcome(lambda: numpoly.poly_divide(a_, b_)), "/", "poly_divide", ["operators", "division"])
             compare_spellings(R, "operator%", f"({la})", outcome(lambda: a_ % b_), outcome(lambda: numpoly.poly_remainder(a_, b_)), "%", "poly_remainder", ["operators", "division"])
             compare_spellings(R, "divmod", f"({la})", outcome(lambda: divmod(a_, b_)), outcome(lambda: numpoly.poly_divmod(a_, b_)), "divmod", "poly_divmod", ["operators", "division"])
-        # methods
+        # methods (also on matrices that are not square: tall by two and more, wide, a single column, 3-d)
+        NONSQUARE = tuple((build_checked(C09.tagged(sh, 30 + 7 * i)), f"{sh}") for i, sh in enumerate([(4, 2), (3, 1), (2, 4), (5, 3), (2, 3, 2)]))
         KD = [{"axis": 0, "keepdims": True}, {"keepdims": True}, {"axis": -1, "keepdims": True}, {"axis": 1}, {"axis": 0}, {}]
         for meth, npf, kws in (("sum", numpy.sum, KD), ("prod", numpy.prod, KD),
                                ("mean", numpy.mean, KD), ("cumsum", numpy.cumsum, [{}, {"axis": 0}, {"axis": -1}]),
@@ -371,8 +372,8 @@ def run_case(case, R):
                                ("round", numpy.round, [{}, {"decimals": 1}]), ("transpose", numpy.transpose, [{}]),
                                ("diagonal", numpy.diagonal, [{}, {"offset": 1}]), ("repeat", numpy.repeat, [{"repeats": 2, "axis": 0}]),
                                ("nonzero", numpy.nonzero, [{}])):
-            for x, lx in ((m, "m"), (P["cf"], "cf"), (c, "c"), (ms, "msub")):
-                for kw in kws:
+            for x, lx in ((m, "m"), (P["cf"], "cf"), (c, "c"), (ms, "msub")) + NONSQUARE:
+                for kw in kws + ([{"offset": -1}, {"offset": 2}] if meth == "diagonal" else []):
                     if lx == "c" and (kw.get("axis") == 1 or meth in ("diagonal",)):
                         continue
                     compare_spellings(R, "method " + meth, f"({lx},{kw})", outcome(lambda: getattr(x, meth)(**kw)), outcome(lambda: npf(x, **kw)),
